@@ -76,9 +76,9 @@ func runC17(c *Ctx) {
 	dir := filepath.Join(work, fmt.Sprintf("c17-%d-%d", c.Shard, os.Getpid()))
 	os.MkdirAll(dir, 0o755)
 	defer os.RemoveAll(dir)
-	n := int64(800)
+	n := int64(2400)
 	if c.Thorough() {
-		n = 40000
+		n = 120000
 	}
 	c.Cases(n, func(idx int64, r *Rng) {
 		// ---- flag vector
@@ -93,8 +93,14 @@ func runC17(c *Ctx) {
 			args = append(args, "-preset", name)
 			// other flags must be ignored when a preset is given
 			if r.Chance(1, 2) {
-				args = append(args, "-s", "100", "-c", "3")
-				flagset += "+ignored"
+				// every one of these must be ignored
+				ign := [][]string{{"-s", "100"}, {"-c", "3"}, {"-8"}, {"-p", "1"}, {"-l", "2"}, {"-s", "100", "-c", "3"}, {"-8", "-l", "3", "-p", "2"}}[r.Intn(7)]
+				if r.Bool() {
+					args = append(ign, args...) // before the -preset flag
+				} else {
+					args = append(args, ign...)
+				}
+				flagset += "+ignored" + ign[0]
 			}
 			cfg = asm.Config{Dialect: row.dialect, CoreSize: row.size, Length: row.length, Processes: row.processes, Distance: row.length}
 			cycles = row.cycles
